@@ -71,6 +71,17 @@ structure Inv (cfg : Cfg) (s : Str) (st : State) : Prop where
   chain : Chain st.toks 0 st.pos
   toks : ∀ t ∈ st.toks, TokOk cfg s t
 
+/-- the tokens tile a prefix `s[0, q)` of the source and each is well-formed (what holds of the tokens created
+    before a syntax error was raised) -/
+def PrefixOk (cfg : Cfg) (s : Str) (toks : List Token) : Prop :=
+  ∃ q, q ≤ s.length ∧ Chain toks 0 q ∧ ∀ t ∈ toks, TokOk cfg s t
+
+theorem Inv.prefixOk {s : Str} {st : State} (h : Inv cfg s st) : PrefixOk cfg s st.toks :=
+  ⟨st.pos, h.pos_le, h.chain, h.toks⟩
+
+theorem Inv.prefixOk_of {s : Str} {st st' : State} (h : Inv cfg s st) (e : st'.toks = st.toks) :
+    PrefixOk cfg s st'.toks := by rw [e]; exact h.prefixOk
+
 /-- `st1` is `st` after one non-degenerate `match_reg` -/
 structure Stepped (s : Str) (st st1 : State) : Prop where
   pos_gt : st.pos < st1.pos
@@ -220,6 +231,23 @@ theorem parseUntilLoop_found (s : Str) (watch : Bool) (terms : List Str) (hterms
     have := ih st' text term hs.pos_le hs.lineno h
     exact ⟨Moved.of_stepped hs this.1, by have := hs.pos_gt; omega⟩
   · intro st' text term _ _ h; cases h
+
+/-- `parse_until_text` creates no node, also when it gives up -/
+theorem parseUntilLoop_fail_toks (s : Str) (watch : Bool) (terms : List Str) (sp sl sc : Nat) (fuel : Nat) (st : State)
+    (br pa bk : Int) : ∀ l c st', parseUntilLoop s watch terms sp sl sc fuel st br pa bk = .fail l c st' →
+      st'.toks = st.toks := by
+  fun_induction parseUntilLoop s watch terms sp sl sc fuel st br pa bk
+  · intro l c st' h; cases h
+  · rename_i ih; intro l c st' h; exact ih l c st' h
+  · rename_i ih; intro l c st' h; exact ih l c st' h
+  · intro l c st' h; cases h
+  · rename_i ih; intro l c st' h; exact ih l c st' h
+  · rename_i ih; intro l c st' h; exact ih l c st' h
+  · intro l c st' h; cases h; rfl
+
+theorem parseUntil_fail_toks {s : Str} {watch : Bool} {terms : List Str} {st st' : State} {l c : Nat}
+    (h : parseUntil s watch terms st = .fail l c st') : st'.toks = st.toks :=
+  parseUntilLoop_fail_toks s watch terms _ _ _ _ st 0 0 0 l c st' h
 
 theorem parseUntil_found {s : Str} {watch : Bool} {terms : List Str} (hterms : ∀ t ∈ terms, 0 < t.length)
     {st st' : State} {text term : Str} (hp : st.pos ≤ s.length) (hl : st.lineno = lineOf s st.pos)
